@@ -393,10 +393,30 @@ def gen_reattach_font(r):
     src = x if r.random() < 0.7 else r.choice([k for k in range(ln) if k != tgt])
     p1[tgt] = p1.get(tgt, []) + [OP['PUT_COPY'], (src - tgt) & 255]
     passes = [(0, r.randrange(1, 3), [rule(p0)]), (0, r.randrange(1, 3), [rule(p1)])]
-    if r.random() < 0.4:
+    ipos = 0
+    if r.random() < 0.3 and x < i:
+        # substitution passes: the parent `i` of `x` is deleted after a copy of `x` (still naming `i`) was taken, and its own
+        # map cell is replaced by a copy too (it is `assoc`ed and referenced later), so that garbage collection never sees
+        # it; a later slot then copies the reference to `x`
+        later = [k for k in range(ln) if k > i]
+        if later:
+            t = r.choice(later)
+            q = {x: [OP['ASSOC'], 1, 0], i: [OP['ASSOC'], 1, 0, OP['DELETE']]}
+            act = []
+            for k in range(ln):
+                act += q.get(k, [])
+                if k == t:
+                    act += [OP['PUT_COPY'], (x - t) & 255]
+                if k < ln - 1:
+                    act.append(OP['NEXT'])
+            # a reference to the deleted slot's cell (so that it got a temporary copy), then return
+            act += [OP['PUSH_GLYPH_ATTR_OBS'], 0, (i - (ln - 1)) & 255, OP['POP_RET']]
+            passes = [(0, r.randrange(1, 3), [rule(p0)]), (0, r.randrange(1, 3), [(ln, 0, b"", bytes(act), pat)])]
+            ipos = 2
+    elif r.random() < 0.4:
         p2 = {k: att(r.randrange(ln)) for k in range(ln) if r.random() < 0.4}
         passes.append((0, 1, [rule(p2)]))
-    data, model = font_from_rules(passes, 0, ncols)
+    data, model = font_from_rules(passes, ipos, ncols)
     return data, {"model": model, "kind": "reattach"}
 
 
